@@ -49,6 +49,8 @@ type c04Case struct {
 	FlushMS int               `json:"flush_ms"`
 	Fatal   map[string]string `json:"fatal,omitempty"` // marker -> application exception class (first attempt)
 	Tape    evid.B            `json:"tape,omitempty"`
+	// Log: the client's logger ("" discards unevaluated; json / text: Debug-level slog handlers that marshal every attribute)
+	Log string `json:"log,omitempty"`
 }
 
 func c04Run(c c04Case) Outcome {
@@ -148,6 +150,16 @@ func c04Apply(cl *sim.Cluster, table string, addrs []string, ev c04Event, seq in
 		cl.Lock()
 		r.KillAfterProbe += 1 + ev.Count%2
 		cl.Unlock()
+	case "probedenied":
+		// from now on the region refuses the client's probe with an application-level exception (the probe's row is
+		// not this user's to read, say) while it serves requests: it is online, and has to count as established
+		cl.Lock()
+		r.ProbeExc = &sim.Exc{Class: ev.Class, Stack: "probe refused"}
+		if ev.Count > 0 {
+			// ... and it has to be established anew
+			r.Transient = append(r.Transient, sim.Exc{Class: sim.NSRE, Stack: sim.NSRE + ": closing"})
+		}
+		cl.Unlock()
 	case "reset":
 		cl.KillConns(addr)
 	case "dialdown":
@@ -189,6 +201,7 @@ func c04Apply(cl *sim.Cluster, table string, addrs []string, ev c04Event, seq in
 }
 
 func c04RunInBubble(c c04Case, concurrentInjector bool) (out Outcome) {
+	defer withLog(c.Log)()
 	cl := c.Layout.build()
 	cl.Tape = c.Tape
 	cl.PermuteMulti = true
@@ -425,11 +438,12 @@ func c04Gen(t *rapid.T) c04Case {
 	c.Queue = rapid.SampledFrom([]int{1, 2, 100}).Draw(t, "queue")
 	c.FlushMS = rapid.SampledFrom([]int{0, 1, 20}).Draw(t, "flush")
 	c.Tape = rapid.SliceOfN(rapid.Byte(), 0, 8).Draw(t, "tape")
+	c.Log = rapid.SampledFrom([]string{"", "", "", "json", "text"}).Draw(t, "log")
 	ne := rapid.IntRange(1, 8).Draw(t, "nevents")
 	for i := 0; i < ne; i++ {
 		ev := c04Event{
 			AtMS:   rapid.SampledFrom([]int{0, 1, 5, 20, 21, 40, 100, 500, 1000, 2000}).Draw(t, "at"),
-			Kind:   rapid.SampledFrom([]string{"move", "split", "merge", "transient", "transient", "abort", "stop", "reset", "dialdown", "metamove", "probekill"}).Draw(t, "kind"),
+			Kind:   rapid.SampledFrom([]string{"move", "split", "merge", "transient", "transient", "abort", "stop", "reset", "dialdown", "metamove", "probekill", "probedenied"}).Draw(t, "kind"),
 			Region: rapid.IntRange(0, 5).Draw(t, "region"),
 			Server: rapid.IntRange(0, 3).Draw(t, "server"),
 		}
@@ -439,6 +453,9 @@ func c04Gen(t *rapid.T) c04Case {
 		case "transient":
 			ev.Class = rapid.SampledFrom(c04TransientClasses).Draw(t, "class")
 			ev.Count = rapid.IntRange(1, 4).Draw(t, "count")
+		case "probedenied":
+			ev.Class = rapid.SampledFrom([]string{"org.apache.hadoop.hbase.security.AccessDeniedException", sim.DoNotRetry, sim.WrongRegion, appExc}).Draw(t, "pclass")
+			ev.Count = rapid.IntRange(0, 1).Draw(t, "pcount")
 		case "abort", "stop", "dialdown":
 			// (also outages longer than the 30 s region lookup time-out)
 			ev.DownMS = rapid.SampledFrom([]int{10, 100, 1000, 20000, 45000, 120000}).Draw(t, "down")
